@@ -467,6 +467,47 @@ theorem syncW_spec (c : Cfg) (mk : Mk) (hmk : MkOk mk) (d : Disk) (w : WSt) (f :
   rw [hno]
   cases c.syncFsyncs <;> simp [Disk.applyAll, Disk.apply] <;> rw [← hp.path] <;> exact hp.inv.file
 
+theorem payCells_getElem? (b : Block) (i : Nat) (h : i < b.plen) : (payCells b)[i]? = some (Cell.bp b i) := by
+  simp [payCells, List.getElem?_map, List.getElem?_range h]
+
+theorem blockCells_getElem?_cases (b : Block) (i : Nat) :
+    (blockCells b)[i]? = none ∨ (∃ j, (blockCells b)[i]? = some (Cell.bp b j)) ∨ (blockCells b)[i]? = some (Cell.bh b i) := by
+  by_cases h : i < 16
+  · right; right
+    simp [blockCells, hdrCells, List.getElem?_append, h]
+  · by_cases h2 : i < 16 + b.plen
+    · right; left
+      refine ⟨i - 16, ?_⟩
+      simp only [blockCells]
+      rw [List.getElem?_append_right (by simp; omega)]
+      simp only [hdrCells_length]
+      exact payCells_getElem? b (i - 16) (by omega)
+    · left
+      apply List.getElem?_eq_none
+      simp [blockCells_length]; omega
+
+/-- the torn prefix of one block holds no whole block -/
+theorem tailHoldsBlock_torn (b : Block) (r : Nat) : tailHoldsBlock ((blockCells b).take r) = false := by
+  unfold tailHoldsBlock
+  rw [List.any_eq_false]
+  intro i _
+  by_cases hi : i ≥ 1
+  · simp only [hi, decide_true, Bool.true_and]
+    have hh : (((blockCells b).take r).drop i).head? = ((blockCells b).take r)[i]? := by
+      rw [List.head?_drop]
+    rw [hh]
+    by_cases hir : i < r
+    · rw [List.getElem?_take_of_lt hir]
+      rcases blockCells_getElem?_cases b i with h | ⟨j, h⟩ | h
+      · rw [h]; simp
+      · rw [h]; simp
+      · rw [h]
+        cases i with
+        | zero => omega
+        | succ n => simp
+    · rw [List.getElem?_eq_none (by simp; omega)]; simp
+  · simp [hi]
+
 /-- The repaired `openExistingFile` on what a crash leaves behind: the writer ends up on a clean
     file holding exactly the blocks a load of the image returns. -/
 theorem open_repaired (c : Cfg) (hc : GoodR c.r) (ht : c.truncatesTornTail = true) (nl bsz : Nat)
@@ -503,7 +544,13 @@ theorem open_repaired (c : Cfg) (hc : GoodR c.r) (ht : c.truncatesTornTail = tru
       refine ⟨blocks.take m, { path := .main, pos := (fileCells nl (blocks.take m)).length, nl := nl, buf := [], bufSize := 0, bs := bsz },
         (if (fileCells nl (blocks.take m)).length < g.length then [.truncate .main (fileCells nl (blocks.take m)).length] else []),
         ?_, ?_, rfl, rfl, hwfm, ?_⟩
-      · simp [openWriter, Disk.get, hg, hh, ht, hv]
+      · have htb : tailHoldsBlock (g.drop (fileCells nl (blocks.take m)).length) = false := by
+          rw [hgt, List.drop_left']
+          · rcases htail with h | ⟨b, r, _, h, _, _⟩
+            · rw [h]; rfl
+            · rw [h]; exact tailHoldsBlock_torn b r
+          · rfl
+        simp [openWriter, Disk.get, hg, hh, ht, hv, htb]
       · have hdisk : (d.applyAll (if (fileCells nl (blocks.take m)).length < g.length
             then [FsOp.truncate .main (fileCells nl (blocks.take m)).length] else [])).get .main =
               some (fileCells nl (blocks.take m)) := by
@@ -576,9 +623,6 @@ namespace Hv.BlockStore
 
 /-! ### Appending behind a torn block strands everything that follows -/
 
-theorem payCells_getElem? (b : Block) (i : Nat) (h : i < b.plen) : (payCells b)[i]? = some (Cell.bp b i) := by
-  simp [payCells, List.getElem?_map, List.getElem?_range h]
-
 /-- A block cut at or after its header, followed by anything that is not its own continuation:
     the reader returns no entry from here on (it stops with a checksum error or a short read). -/
 theorem readBlocks_frag_strands (f : Nat) (b : Block) (hw : b.WF) (r : Nat) (h1 : 16 ≤ r) (h2 : r < 16 + b.plen)
@@ -594,7 +638,8 @@ theorem readBlocks_frag_strands (f : Nat) (b : Block) (hw : b.WF) (r : Nat) (h1 
   simp only [hlen, hsz, hhead]
   have a1 : ¬ (r + rest.length = 0) := by omega
   have a2 : ¬ (r + rest.length < 16) := by omega
-  simp only [a1, a2, if_false]
+  have a0 : ¬ b.plen = 0 := by have := hw.2.2.1; omega
+  simp only [a0, a1, a2, if_false]
   split
   · rfl
   · rename_i hav
